@@ -438,6 +438,44 @@ func c05ConfigEnum(thorough bool) mc.Enum {
 		}
 	}
 	rec(nil)
+	// providers whose announced address is accepted by the message although it is no ordinary URL: the address is read
+	// again wherever providers are grouped by domain and wherever a lapse is recorded
+	for _, ip := range []string{"localhost:3333", "node1.example.com:3333", "http://:3333", "/x", "https://example.com.", "http://[::1]:80", "mailto:x@y", "https://", "https://a..b", "x:", "https://.", "http://%41.com", "https://ex ample.com"} {
+		for _, via := range []string{"SetProviderIP", "InitProvider"} {
+			ip, via := ip, via
+			e.Cases = append(e.Cases, mc.Case{Desc: fmt.Sprintf("provider-address|%q|%s", ip, via), Run: func(env world.Env) mc.CaseResult {
+				w := env.W()
+				u, p1 := w.A("U").Bech, w.A("P1").Bech
+				cr := mc.CaseResult{Class: "address-refused"}
+				if via == "InitProvider" { // a fresh registration with that address
+					if !env.Deliver(storagetypes.NewMsgShutdownProvider(p1)).OK() || !env.Deliver(storagetypes.NewMsgInitProvider(p1, ip, 1_000_000_000, "kb")).OK() {
+						return cr
+					}
+				} else if !env.Deliver(storagetypes.NewMsgSetProviderIP(p1, ip)).OK() {
+					return cr
+				}
+				cr.Class, cr.Nontrivial = "no-panic", true
+				h := env.Ctx().BlockHeight()
+				msg := storagetypes.NewMsgPostFile(u, files[0].merkle, 12, 0, 0, 2, "{}")
+				msg.Expires = h + 20_000
+				mustOK(env.Deliver(msg), "PostFile")
+				for _, pv := range []string{"P1", "P2"} {
+					item, hl := files[0].proofFor(0)
+					env.Deliver(storagetypes.NewMsgPostProof(w.A(pv).Bech, files[0].merkle, u, h, item, hl, 0))
+				}
+				env.Deliver(storagetypes.NewMsgRequestAttestationForm(w.A("P2").Bech, files[0].merkle, u, h))
+				env.Deliver(storagetypes.NewMsgRequestReportForm(u, p1, files[0].merkle, u, h))
+				for b := 0; b < 8; b++ { // past the removal of the lapsed provers
+					if bp := env.NextBlock(day); bp != nil {
+						cr.Class = "panic"
+						cr.Viols = append(cr.Viols, viol("block-processing-never-panics", panicSig(bp), "provider address %q (%s): %s of height %d panicked: %s", ip, via, bp.Phase, bp.Height, bp.Value))
+						break
+					}
+				}
+				return cr
+			}})
+		}
+	}
 	// several identical purchases in one block (their gauges share one identity), then reward blocks
 	for n := 2; n <= 4; n++ {
 		for _, pr := range [][2]int64{{30, 1_000_000_000}, {365, 5_000_000_000_000}} {
@@ -471,7 +509,7 @@ func init() {
 	prev := Props["C05"].Run
 	Props["C05"] = Prop{Level: "model_checking", Run: func(r *mc.Run, tier string) {
 		prev(r, tier)
-		r.Rules = append(r.Rules, "plus an exhaustive enumeration of reward-block configurations: up to 3 (thorough 4) files, each with FileSize in {1,1000,2^62,2^63-1}, one or two provers, pay-once or plan-paid, posted and proven through real messages, followed by eight one-day blocks (past the first removal of lapsed provers); and 2-4 identical purchases in one block followed by eight one-day blocks")
+		r.Rules = append(r.Rules, "plus an exhaustive enumeration of reward-block configurations: up to 3 (thorough 4) files, each with FileSize in {1,1000,2^62,2^63-1}, one or two provers, pay-once or plan-paid, posted and proven through real messages, followed by eight one-day blocks (past the first removal of lapsed provers); 13 provider addresses that the message accepts although they are no ordinary URL (no scheme, no host, trailing dot, IPv6, opaque), set by SetProviderIP or a fresh InitProvider, with that provider lapsing on a file and named on forms; and 2-4 identical purchases in one block followed by eight one-day blocks")
 		dl := time.Now().Add(40 * time.Second)
 		if tier == "thorough" {
 			dl = time.Now().Add(15 * time.Minute)
